@@ -55,6 +55,7 @@ type rawPeer struct {
 	regErr   string
 	regAtMs  float64
 	regDurMs float64
+	attempts []AttemptRecord
 }
 
 func newRawPeer(socket string, pos int, spec Peer) (*rawPeer, error) {
@@ -124,6 +125,9 @@ func (p *rawPeer) script(pred *rawPeer) {
 	switch p.spec.Stall {
 	case stallSilent:
 		return // connects, serves its Plugin service, never registers
+	case stallMulti:
+		p.multiScript(pred)
+		return
 	case stallLate:
 		// The registration timeout of this peer starts when the runtime accepts its
 		// connection, which happens at the latest when the runtime is visibly done with the
@@ -161,6 +165,72 @@ func (p *rawPeer) script(pred *rawPeer) {
 	if err != nil {
 		p.settle() // refused (or the connection is gone): the runtime has moved on
 	}
+}
+
+// multiScript calls RegisterPlugin several times on the one connection: the case's invalid
+// attempts, GapMs apart (below the registration timeout), then silence, a disconnect, or the
+// peer's own well-formed registration. The attempts are spaced in real time after the
+// runtime has accepted the connection (= is visibly done with the peer ahead), not queued up
+// beforehand. An attempt whose reply does not arrive within the gap is abandoned (the
+// unchanged runtime never answers a third call on a refused connection).
+func (p *rawPeer) multiScript(pred *rawPeer) {
+	if pred != nil {
+		select {
+		case <-pred.settledC:
+		case <-p.release:
+			return
+		case <-time.After(10 * time.Second):
+		}
+	}
+	gap := time.Duration(p.spec.GapMs) * time.Millisecond
+	base := time.Now()
+	call := func(i int, name, idx string, wait time.Duration) {
+		at := base.Add(time.Duration(i) * gap)
+		select {
+		case <-time.After(time.Until(at)):
+		case <-p.release:
+			return
+		}
+		ctx, cancel := context.WithTimeout(context.Background(), wait)
+		start := time.Now()
+		_, err := p.rt.RegisterPlugin(ctx, &api.RegisterPluginRequest{PluginName: name, PluginIdx: idx})
+		cancel()
+		a := AttemptRecord{Name: name, Idx: idx, AtMs: p.ms(start), TookMs: float64(time.Since(start).Microseconds()) / 1000}
+		if err != nil {
+			a.Err = err.Error()
+		} else {
+			a.Err = "accepted"
+		}
+		p.mu.Lock()
+		p.attempts = append(p.attempts, a)
+		p.mu.Unlock()
+		if err != nil {
+			p.settle()
+		}
+	}
+	for i, a := range p.spec.Attempts {
+		call(i, a.Name, a.Idx, gap)
+	}
+	k := len(p.spec.Attempts)
+	switch p.spec.Final {
+	case finalValidEarly, finalValidLate:
+		call(k, p.spec.Name, p.spec.Idx, 300*time.Millisecond)
+		p.mu.Lock()
+		p.regTried = true
+		p.mu.Unlock()
+	case finalDisconnect:
+		select {
+		case <-time.After(time.Until(base.Add(time.Duration(k) * gap))):
+		case <-p.release:
+			return
+		}
+		p.mu.Lock()
+		p.tearing = true // the close that follows is the peer's own
+		p.mu.Unlock()
+		p.mux.Close()
+		p.conn.Close()
+	}
+	p.settle()
 }
 
 func (p *rawPeer) record(c Call) {
@@ -256,22 +326,32 @@ func (p *rawPeer) teardown() {
 	}
 }
 
+// AttemptRecord is one RegisterPlugin call of a multi-attempt peer.
+type AttemptRecord struct {
+	Name   string  `json:"name"`
+	Idx    string  `json:"idx"`
+	AtMs   float64 `json:"at_ms"`
+	TookMs float64 `json:"took_ms"`
+	Err    string  `json:"result"`
+}
+
 // PeerRecord is what a peer saw, for the oracle and the replay file.
 type PeerRecord struct {
-	Pos        int     `json:"pos"`
-	Spec       Peer    `json:"spec"`
-	Sentinel   bool    `json:"sentinel,omitempty"`
-	Valid      bool    `json:"expected_valid"`
-	Why        string  `json:"invalid_because,omitempty"`
-	Registered bool    `json:"register_called"`
-	RegErr     string  `json:"register_error,omitempty"`
-	RegAtMs    float64 `json:"register_at_ms,omitempty"`
-	RegDurMs   float64 `json:"register_took_ms,omitempty"`
-	ClosedAtMs float64 `json:"closed_by_runtime_at_ms,omitempty"`
-	SyncAtMs   float64 `json:"sync_at_ms,omitempty"`
-	NSync      int     `json:"synchronize_calls"`
-	Probes     int     `json:"probes"`
-	Calls      []Call  `json:"calls"`
+	Pos        int             `json:"pos"`
+	Spec       Peer            `json:"spec"`
+	Sentinel   bool            `json:"sentinel,omitempty"`
+	Valid      bool            `json:"expected_valid"`
+	Why        string          `json:"invalid_because,omitempty"`
+	Registered bool            `json:"register_called"`
+	RegErr     string          `json:"register_error,omitempty"`
+	RegAtMs    float64         `json:"register_at_ms,omitempty"`
+	RegDurMs   float64         `json:"register_took_ms,omitempty"`
+	ClosedAtMs float64         `json:"closed_by_runtime_at_ms,omitempty"`
+	SyncAtMs   float64         `json:"sync_at_ms,omitempty"`
+	NSync      int             `json:"synchronize_calls"`
+	Probes     int             `json:"probes"`
+	Calls      []Call          `json:"calls"`
+	Attempts   []AttemptRecord `json:"register_attempts,omitempty"`
 }
 
 func (p *rawPeer) snapshot() PeerRecord {
@@ -281,6 +361,7 @@ func (p *rawPeer) snapshot() PeerRecord {
 		Pos: p.pos, Spec: p.spec,
 		Registered: p.regTried, RegErr: p.regErr, RegAtMs: p.regAtMs, RegDurMs: p.regDurMs,
 		NSync: p.nSync, Probes: p.probes,
+		Attempts: append([]AttemptRecord{}, p.attempts...),
 	}
 	if p.closed {
 		r.ClosedAtMs = p.ms(p.closedAt)
